@@ -149,6 +149,77 @@ example : defineRole [("r", ⟨[("ok", "true")], "tail -f x", ""⟩)] ⟨"s", so
     = some [("r", ⟨[("ok", "true")], "tail -f x", ""⟩), ("s", ⟨[("ok", "true"), ("more", "false")], "tail -f x", "rm x"⟩)] := by
   decide
 
+/-- every role the parser holds has distinct action names and distinct role names -/
+def RolesOK (known : List (String × Role)) : Prop :=
+  (known.map Prod.fst).Nodup ∧ ∀ x ∈ known, (x.2.actions.map Prod.fst).Nodup
+
+/-- one `role … end` section keeps that (a second action of one name, own or inherited, and a second role of
+one name are rejected) -/
+theorem defineRole_ok (known known' : List (String × Role)) (d : RoleDef)
+    (hk : RolesOK known) (hd : defineRole known d = some known') : RolesOK known' := by
+  unfold defineRole at hd
+  split at hd
+  · cases hd
+  · rename_i hnew
+    have hnew' : (lookup d.name known).isSome = false := by simpa using hnew
+    split at hd
+    · cases hd
+    · rename_i b hb
+      split at hd
+      · cases hd
+      · rename_i acts hacts
+        cases hd
+        have hbok : (b.actions.map Prod.fst).Nodup := by
+          cases hp : d.parent with
+          | none => simp [hp] at hb; subst hb; simp [Role.empty]
+          | some p =>
+            simp only [hp] at hb
+            exact hk.2 _ (lookup_some_mem _ _ _ hb)
+        refine ⟨?_, ?_⟩
+        · rw [List.map_append, List.nodup_append]
+          refine ⟨hk.1, by simp, ?_⟩
+          intro a ha c hc
+          simp at hc; subst hc
+          intro e; subst e
+          exact lookup_none_not_mem _ _ hnew' ha
+        · intro x hx
+          rcases List.mem_append.mp hx with h | h
+          · exact hk.2 x h
+          · simp at h; subst h
+            exact addActions_nodup _ _ _ hbok hacts
+
+theorem defineRoles_ok (ds : List RoleDef) (known roles : List (String × Role))
+    (hk : RolesOK known) (h : defineRoles known ds = some roles) : RolesOK roles := by
+  induction ds generalizing known with
+  | nil => simp [defineRoles] at h; subst h; exact hk
+  | cons d r ih =>
+    simp only [defineRoles] at h
+    split at h
+    · cases h
+    · rename_i k hd
+      exact ih k (defineRole_ok _ _ _ hk hd) h
+
+/-- **parser_guarantees_distinct_actions** — the hypothesis of `scripts_complete` holds of every role of every
+configuration the parser accepts: whatever the `role` sections are (any number, any `extends` chain), a role
+that comes out of them never has two actions of one name, and no two roles share a name. -/
+theorem parser_guarantees_distinct_actions (ds : List RoleDef) (roles : List (String × Role))
+    (h : defineRoles [] ds = some roles) : RolesOK roles :=
+  defineRoles_ok ds [] roles ⟨by simp, by simp⟩ h
+
+/-- hence, for every accepted configuration: each actor's script file of each (non-reserved) action of its
+role holds that action's command — `scripts_complete` without a hypothesis on the names being distinct. -/
+theorem scripts_complete_of_parsed (ds : List RoleDef) (roles : List (String × Role))
+    (h : defineRoles [] ds = some roles) (a : Actor) (rn : String) (r : Role) (hr : lookup rn roles = some r)
+    (hres : ∀ x ∈ r.actions, x.1 ≠ "_spotlight" ∧ x.1 ≠ "_cleanup") :
+    ∀ n c, (n, c) ∈ r.actions → fileOf n (written a r) = some (script a n c true) :=
+  scripts_complete a r ((parser_guarantees_distinct_actions ds roles h).2 _ (lookup_some_mem _ _ _ hr)) hres
+
+/-- a redefinition of an inherited action is rejected, not silently merged -/
+example : defineRoles [] [⟨"r", none, [("ok", "true")], none, none⟩, ⟨"s", some "r", [("ok", "false")], none, none⟩] = none := by
+  decide
+example : defineRoles [] [⟨"r", none, [("ok", "true")], none, none⟩, ⟨"r", none, [], none, none⟩] = none := by
+  decide
+
 open Shk.Paths in
 /-- **workdir_under_run** — the working directory of an actor is the absolute path
 `<run directory>/artifacts/<actor>` whatever the `-o` argument; `TMPDIR=$PWD` is that directory
